@@ -151,11 +151,17 @@ func (e *Event) Creator() string {
 
 // SelfParent returns the Event's self-parent
 func (e *Event) SelfParent() string {
+	if len(e.Body.Parents) < 1 {
+		return ""
+	}
 	return e.Body.Parents[0]
 }
 
 // OtherParent returns the Event's other-parent
 func (e *Event) OtherParent() string {
+	if len(e.Body.Parents) < 2 {
+		return ""
+	}
 	return e.Body.Parents[1]
 }
 
